@@ -275,7 +275,8 @@ def run(tier, **kw):
     depth = 4 if tier == "quick" else 6
     cfgs = configs(tier)
     units = [("bfs", c, depth) for c in cfgs]
-    comp_units = [timedelta(seconds=1), timedelta(days=1), timedelta(days=73), timedelta(days=5 * 365)]
+    # incl. cuts that do not fall on whole seconds (rebalances driven by tick data): elapsed time is pro-rated by the second, fractions included
+    comp_units = [timedelta(seconds=1), timedelta(days=1), timedelta(days=73), timedelta(days=5 * 365), timedelta(seconds=0.5), timedelta(seconds=1.5), timedelta(days=1, seconds=0.75)]
     ncomp = 6 if tier == "quick" else 8
     for c in cfgs:
         units.append(("comp", c, (ncomp, comp_units)))
